@@ -382,8 +382,37 @@ def sym_divmod(a, b):
     return _b.divmod(a, b)
 
 
+class GuardedSeq:
+    """result of map(f, SymSet): [(guard, value)]; iterating forks on the guards"""
+
+    def __init__(self, items):
+        self.items = items
+
+    def __iter__(self):
+        for g, v in self.items:
+            if g is True or (g is not False and _b.bool(g)):
+                yield v
+
+
+def sym_map(f, *its):
+    if len(its) == 1 and isinstance(its[0], SymSet):
+        return GuardedSeq([(g, f(e)) for g, e in its[0].members])
+    if len(its) == 1 and isinstance(its[0], GuardedSeq):
+        return GuardedSeq([(g, f(e)) for g, e in its[0].items])
+    return _b.map(f, *its)
+
+
 def sym_sum(it, start=0):
+    from .values import i_ite
+
     acc = start
+    if isinstance(it, GuardedSeq):
+        for g, v in it.items:
+            if isinstance(v, (_b.int, SymInt)):
+                acc = acc + i_ite(g, v, 0)
+            elif g is True or (g is not False and _b.bool(g)):
+                acc = acc + v
+        return acc
     for v in it:
         acc = acc + v
     return acc
@@ -540,6 +569,7 @@ SHADOW_BUILTINS = {
     "round": sym_round,
     "divmod": sym_divmod,
     "sum": sym_sum,
+    "map": sym_map,
     "set": sym_set,
     "hash": sym_hash,
     "type": sym_type,
